@@ -59,6 +59,7 @@ type RawSrvParams struct {
 	Stats   bool        `json:"stats"`
 	Hostile bool        `json:"hostile"` // sequences are arbitrary (C13); otherwise valid foreign conversations (C03, C05)
 	Close   bool        `json:"close"`   // fail the client's reads at the end
+	Enum    int         `json:"enum,omitempty"` // >0: Seq is the idx-th sequence of that length in the bounded enumeration
 }
 
 const errCode = 9 // FailedPrecondition
@@ -321,6 +322,9 @@ func execRawSrv(e *Env, pp any) {
 		return
 	}
 	e.Note("nontrivial")
+	if p.Enum > 0 {
+		e.Note(fmt.Sprintf("enum.len%d", p.Enum))
+	}
 	closed := false
 	if p.Close || p.Hostile {
 		a.In.FailRead(ErrInjected)
@@ -503,9 +507,24 @@ func hangSite(last string) string {
 	return last
 }
 
+// genRawHostileAt enumerates all response sequences of length <= 2 (quick) or
+// <= 3 (thorough) over the 54 symbols (18 shapes x {call 1, call 2, unknown
+// id}) before sampling; the two outstanding calls are drawn from the seed.
+func genRawHostileAt(idx uint64, g *rand.Rand, tier string) any {
+	p := genRawHostile(g, tier).(*RawSrvParams)
+	if syms, ok := enumSeq(idx, uint64(numRShapes*3), enumLimit(tier)); ok {
+		p.Seq = nil
+		for _, s := range syms {
+			p.Seq = append(p.Seq, RawResp{To: int(s%3) - 1, Shape: int(s / 3)})
+		}
+		p.Enum = len(syms)
+	}
+	return p
+}
+
 func init() {
 	Register(&Family{Name: "raw.foreign", Props: []string{"C03", "C05"}, New: func() any { return &RawSrvParams{} }, Gen: genRawValid, Exec: execRawSrv,
 		Faulty: true, FaultKinds: []string{"link.readFail"}})
-	Register(&Family{Name: "raw.hostile-server", Props: []string{"C13"}, New: func() any { return &RawSrvParams{} }, Gen: genRawHostile, Exec: execRawSrv,
+	Register(&Family{Name: "raw.hostile-server", Props: []string{"C13"}, New: func() any { return &RawSrvParams{} }, Gen: genRawHostile, GenAt: genRawHostileAt, Exec: execRawSrv,
 		Faulty: true, FaultKinds: []string{"peer.malformed", "link.readFail"}})
 }
